@@ -19,7 +19,7 @@ TRUSTED = ['CPython ast', 'oracle.py', 'effects.py (purity of the signless rotat
 
 
 def _acq_zero_guard(test):
-    """(a, b) when `test` holds exactly for acq(a, b) == 0 with a, b plain names; else None."""
+    """(a, b, polarity ok) when `test` depends on acq(a, b) with a, b plain names (polarity ok: it holds exactly for acq == 0)."""
     calls = [c for c in ast.walk(test) if isinstance(c, ast.Call) and norm(c.func) == 'acq' and len(c.args) == 2
              and all(isinstance(x, ast.Name) for x in c.args)]
     if len(calls) != 1:
@@ -34,9 +34,7 @@ def _acq_zero_guard(test):
             vals.append(bool(ev(test, {}, call=call)))
     except Undecidable:
         return None
-    if vals != [True, False]:
-        return None
-    return calls[0].args[0].id, calls[0].args[1].id
+    return calls[0].args[0].id, calls[0].args[1].id, vals == [True, False]
 
 
 def _slot(index, var):
@@ -55,7 +53,7 @@ def flip_sites(f):
         ab = _acq_zero_guard(st.test)
         if ab is None:
             continue
-        g1, g2 = ab
+        g1, g2, pol_ok = ab
         stores = [s for s in st.body if isinstance(s, ast.Assign) and isinstance(s.targets[0], ast.Subscript)
                   and isinstance(s.targets[0].value, ast.Name) and s.targets[0].value.id == g2]
         if not stores:
@@ -63,14 +61,14 @@ def flip_sites(f):
         names = {n.id for s in stores for n in ast.walk(s.targets[0].slice) if isinstance(n, ast.Name)}
         var = sorted(names)[0] if len(names) == 1 else None
         if len(names) > 1:
-            out.append((g1, g2, None, None, st))
+            out.append((g1, g2, None, None, st, pol_ok))
             continue
         ups = {}
         for s in stores:
             sl = _slot(s.targets[0].slice, var)
             if sl:
                 ups[sl] = (s, s.value)
-        out.append((g1, g2, var, ups, st))
+        out.append((g1, g2, var, ups, st, pol_ok))
     return out
 
 
@@ -80,7 +78,8 @@ def flip_normal_form(run, f, loop_form):
     from .. import oracle
     if loop_form:
         sites = flip_sites(f)
-        for g1, g2, var, ups, guard in sites:
+        for g1, g2, var, ups, guard, pol_ok in sites:
+            run.check(pol_ok, 'R8.flip', f, guard.test, 'only a commuting pair may be modified: the block that changes %s must run exactly when acq(%s, %s) == 0' % (g2, g1, g2))
             if ups is None or set(ups) != {'x', 'z'}:
                 run.undecided('R8.flip', f, guard.test, 'the two slot updates of the second string were not recognised (%s)' % (sorted(ups) if ups else None))
                 continue
@@ -110,7 +109,6 @@ def flip_normal_form(run, f, loop_form):
             run.check(bad is None, 'R8.flip', f, norm(ups['x'][0]) + ' ; ' + norm(ups['z'][0]),
                       'a commuting pair must be turned into an anticommuting one by changing %s at the first nontrivial site of %s: '
                       '(x1, z1, x2, z2) = %s' % (g2, g1, bad))
-            run.ok('R8.flip', f, guard.test, 'only a commuting pair is modified')
         return len(sites)
     ups = {}
     g1, g2 = f.posparams[0], f.posparams[1]
